@@ -8,6 +8,15 @@ from ...utils.bitfun import clz, ctz, popcnt, sign_extend
 from ..util import make_int
 
 
+def _to_f32(v: float) -> float:
+    """Round to single precision. The python target keeps f32 values in
+    Python floats, so helpers returning f32 must round themselves."""
+    try:
+        return struct.unpack("<f", struct.pack("<f", v))[0]
+    except OverflowError:
+        return math.copysign(math.inf, v)
+
+
 class Unreachable(RuntimeError):
     """WASM kernel panic. Having an exception for this allows catching it
     in tests.
@@ -18,7 +27,7 @@ class Unreachable(RuntimeError):
 
 def f32_sqrt(v: ir.f32) -> ir.f32:
     """Square root"""
-    return math.sqrt(v)
+    return _to_f32(math.sqrt(v))
 
 
 def f64_sqrt(v: ir.f64) -> ir.f64:
@@ -198,7 +207,7 @@ def f64_promote_f32(v: ir.f32) -> ir.f64:
 
 
 def f32_demote_f64(v: ir.f64) -> ir.f32:
-    return v
+    return _to_f32(v)
 
 
 def f64_reinterpret_i64(v: ir.i64) -> ir.f64:
